@@ -267,6 +267,7 @@ func init() {
 	Properties["C11"] = &PropertySpec{
 		Modules: st,
 		Rules: []Rule{
+			R84(),
 			R78(),
 			R67(),
 			Only(R56(), `^b/write-time-field`),
